@@ -4,7 +4,7 @@
    This file only restates the property theorems; proofs are in frame/*Proofs.v. *)
 From Coq Require Import List NArith ZArith Bool.
 From JV Require Import Bytes FrameBase FrameBaseProofs FrameSpec Split SplitProofs Hdr HdrProofs
-  HdrSpec HdrSpecProofs JsonScan RawJson RawJsonProofs.
+  HdrSpec HdrSpecProofs JsonScan JsonScanProofs RawJson RawJsonProofs.
 Import ListNotations.
 Local Open Scope N_scope.
 
@@ -121,12 +121,28 @@ Theorem c12_header_rules : forall p want st s ct r rest,
 Proof. exact hdr_complete. Qed.
 Print Assumptions c12_header_rules.
 
-(* ---- RawJSON (partial: see RawJsonProofs.v) ---- *)
+(* ---- RawJSON ---- *)
 
-Theorem c12_rawjson_never_panics_partial : forall st s,
-  match RawJson.recv st s with Crash _ => False | _ => True end.
-Proof. exact rawjson_never_panics_partial. Qed.
-Print Assumptions c12_rawjson_never_panics_partial.
+(* one Recv on any stream, in any decoder state: no panic, no fuel exhaustion *)
+Theorem c12_rawjson_total_no_crash : forall st s,
+  match RawJson.recv st s with Crash _ | OutOfFuel => False | _ => True end.
+Proof. exact rawjson_total_no_crash. Qed.
+Print Assumptions c12_rawjson_total_no_crash.
+
+Theorem c12_rawjson_no_crash_all : forall s, clean (RawJson.recv_all s).
+Proof. exact rawjson_recv_all_clean. Qed.
+Print Assumptions c12_rawjson_no_crash_all.
+
+(* the scanner's fuel suffices on every input, and a value consumes at least one byte *)
+Theorem c12_rawjson_scan_fuel : forall s,
+  match scan s with NoFuel => False | Done r => (length r + 1 <= length s)%nat | _ => True end.
+Proof. exact scan_fuel_ok. Qed.
+Print Assumptions c12_rawjson_scan_fuel.
+
+(* once Recv has failed it keeps failing with the same error; an exhausted stream is io.EOF *)
+Theorem c12_rawjson_sticky : forall e s, RawJson.recv (Some e) s = Err e (Some e) s.
+Proof. exact rawjson_sticky. Qed.
+Print Assumptions c12_rawjson_sticky.
 
 Theorem c12_rawjson_exhausted : forall j, all_ws j -> RawJson.recv_all j = [IErr EEOF].
 Proof. exact rawjson_exhausted. Qed.
